@@ -185,7 +185,7 @@ type c08Client struct {
 	closed     map[string]string // connID -> how it ended (one map shared by all clients of a history)
 	active     bool              // took part in this history (a provisioned but idle identity is not looked up)
 	lost       []*c08Conn        // connections this identity lost to another client's handshake on them (still open)
-	cloudDirty string            // cloud-control view not judged (see judgeCloud) until the next keep-alive on cur
+	cloudDirty string            // cloud-control view not judged (see tunnelConn / takeover) until this client's next control handshake
 	unsure     string            // the node dropped cur on its own and the harness has not yet played the adapter cleanup: no verdicts
 	lastNode   int               // node of the most recent connect
 	broken     string            // signature of the running failure episode ("" = last lookup fine)
@@ -380,7 +380,6 @@ func (w *c08World) heartbeat(cl *c08Client) bool {
 		c.chain = false
 	}
 	c.lastKA = c08Span{c0, r0}
-	cl.cloudDirty = "" // EnsureClientOnline rebuilds a missing runtime state
 	w.ev(cl, "hb", "heartbeat "+c.id)
 	w.run.Count("heartbeats", 1)
 	return true
@@ -661,9 +660,11 @@ func (w *c08World) tunnelConn(cl *c08Client, node int) bool {
 	}
 	if cl.cloudDirty == "" {
 		// clean tree: a tunnel-type handshake rewrites the client's runtime state to the
-		// tunnel connection and closing that connection removes the state; the next
-		// heartbeat / handshake on the control connection restores it. The cloud view is
-		// not judged in between.
+		// tunnel connection and closing that connection removes the state. A heartbeat
+		// rebuilds a missing state for whichever connection it arrives on (possibly an
+		// abandoned one) and afterwards only touches it, so only the next control
+		// handshake (ConnectClient) is certain to restore it. The cloud view is not
+		// judged in between.
 		cl.cloudDirty = "tunnel_conn"
 	}
 	w.ev(cl, "t"+strings.ToUpper(string(rune('a'+node))), fmt.Sprintf("tunnel-conn@%s=%s", n.NodeID, mc.ConnID))
@@ -730,8 +731,12 @@ func c08KindClass(kind string) string {
 	switch {
 	case kind == "hb":
 		return "heartbeat"
-	case kind == "re":
+	case kind == "re" || kind == "ri" || kind == "rz":
 		return "relogin"
+	case kind == "hz" || kind == "hO":
+		return "late-heartbeat"
+	case kind == "sw":
+		return "sweep"
 	case strings.HasPrefix(kind, "c"):
 		return "connect"
 	case strings.HasPrefix(kind, "t"):
@@ -973,7 +978,7 @@ func (w *c08World) judge(cl *c08Client, asker int, a c08Answer) *c08Pending {
 			// the lifetime given at the handshake may be over; only heartbeats
 			// (delivered in time, see mustFind) stand between the client and expiry
 			cl.broken = "C08:expired-despite-heartbeat|backend=" + be
-		case w.lastCl == cl.idx && (strings.HasPrefix(w.lastEv, "c") || w.lastEv == "re"):
+		case w.lastCl == cl.idx && (strings.HasPrefix(w.lastEv, "c") || w.lastEv == "re" || w.lastEv == "ri" || w.lastEv == "rz"):
 			cl.broken = "C08:not-registered-after-handshake|backend=" + be
 		case cl.cleaned > 0:
 			cl.broken = "C08:late-cleanup-erased-current|backend=" + be
